@@ -114,7 +114,7 @@ Proof.
   - rewrite <- Hall. destruct Hok as [H|H]; rewrite H.
     + unfold empty_tabs. rewrite map_length. exact Hle.
     + unfold catalogue. rewrite app_length, repeat_length. lia.
-  - exists c, l. rewrite E. cbn [app]. f_equal. f_equal.
+  - exists c, l. eapply eq_trans; [exact E|]. cbn [app]. f_equal. f_equal.
     rewrite <- Hall. unfold catalogue. f_equal.
     destruct Hok as [H|H]; rewrite H.
     + unfold empty_tabs. rewrite map_const_repeat. apply skipn_repeat.
@@ -307,4 +307,566 @@ Section Proofs.
     destruct (get_segment ar st d) as [st' o]; cbn [fst snd] in *. rewrite <- Hs.
     destruct o as [sd| |]; cbn [obnd]; try (now split). now apply IH.
   Qed.
+
+  (* ---- the loader blocks *)
+  Lemma after_ensure : forall ar st s {A} (f : rstate -> rstate * outcome A), wf ar -> tabs_ok ar st ->
+    exists c l, after (ensure_loaded ar st s) f = f (mkSt (catalogue ar) c l (st_cache st)).
+  Proof.
+    intros ar st s A f Hwf Hok. destruct (ensure_loaded_full ar st s Hwf Hok) as (c & l & E).
+    exists c, l. rewrite E. reflexivity.
+  Qed.
+  Lemma after_load_all : forall ar st {A} (f : rstate -> rstate * outcome A), wf ar -> tabs_ok ar st ->
+    exists c l, after (load_all ar st) f = f (mkSt (catalogue ar) c l (st_cache st)).
+  Proof.
+    intros ar st A f Hwf Hok. destruct (load_all_full ar st Hwf Hok) as (c & l & E).
+    exists c, l. rewrite E. reflexivity.
+  Qed.
+
+  Lemma lift_fst : forall {A} (f : A -> value) r, fst (lift f r) = fst r.
+  Proof. intros A f [st [a| |]]; reflexivity. Qed.
+  Lemma lift_snd : forall {A} (f : A -> value) r, snd (lift f r) = omap f (snd r).
+  Proof. intros A f [st [a| |]]; reflexivity. Qed.
+
+  Lemma tabs_ok_same : forall ar st st', tabs_ok ar st -> same_tabs st st' -> tabs_ok ar st'.
+  Proof. intros ar st st' H (E & _). unfold tabs_ok in *. now rewrite E. Qed.
+  Lemma tabs_ok_cat : forall ar c l ch, tabs_ok ar (mkSt (catalogue ar) c l ch).
+  Proof. intros; right; reflexivity. Qed.
+
+  (* queries answered from the tables alone *)
+  Definition is_table (q : query) : bool :=
+    match q with
+    | QListSamples | QPrefix _ | QCompStats | QListContigs _ | QContigLength _ _ | QSegDesc _ _
+    | QGroupStats | QAllSegments => true
+    | _ => false
+    end.
+
+  Ltac loaded Hwf Hok E :=
+    match goal with
+    | |- context [after (ensure_loaded ?ar ?st ?s) ?f] =>
+      let c := fresh "c" in let l := fresh "l" in
+      destruct (after_ensure ar st s f Hwf Hok) as (c & l & E); rewrite E; clear E; cbn beta
+    | |- context [after (load_all ?ar ?st) ?f] =>
+      let c := fresh "c" in let l := fresh "l" in
+      destruct (after_load_all ar st f Hwf Hok) as (c & l & E); rewrite E; clear E; cbn beta
+    end.
+
+  Lemma table_step : forall ar st q, wf ar -> tabs_ok ar st -> is_table q = true ->
+    snd (step ar st q) = answer ar q /\ tabs_ok ar (fst (step ar st q))
+    /\ st_cache (fst (step ar st q)) = st_cache st.
+  Proof.
+    intros ar st q Hwf Hok Hq.
+    destruct q; try discriminate Hq; unfold ReaderState.step, ReaderState.answer; cbn [fst snd].
+    - repeat split; assumption.
+    - repeat split; assumption.
+    - repeat split; assumption.
+    - loaded Hwf Hok E. cbn [st_tabs].
+      destruct (get_contig_list ar (catalogue ar) s); cbn [fst snd st_cache]; repeat split; apply tabs_ok_cat.
+    - loaded Hwf Hok E. cbn [st_tabs].
+      destruct (get_contig_desc ar (catalogue ar) s c); rewrite ?lift_fst, ?lift_snd; cbn [fst snd st_cache];
+        repeat split; apply tabs_ok_cat.
+    - loaded Hwf Hok E. cbn [st_tabs].
+      destruct (get_contig_desc ar (catalogue ar) s c); cbn [fst snd st_cache]; repeat split; apply tabs_ok_cat.
+    - loaded Hwf Hok E. cbn [st_tabs]. rewrite lift_fst, lift_snd. cbn [fst snd st_cache].
+      repeat split; apply tabs_ok_cat.
+    - loaded Hwf Hok E. cbn [st_tabs]. rewrite lift_fst, lift_snd. cbn [fst snd st_cache].
+      repeat split; apply tabs_ok_cat.
+  Qed.
+
+  (* the tables stay "empty or complete" whatever is asked (no hypothesis on the reference decoders) *)
+  Lemma step_tabs_ok : forall ar st q, wf ar -> tabs_ok ar st -> tabs_ok ar (fst (step ar st q)).
+  Proof.
+    intros ar st q Hwf Hok.
+    destruct (is_table q) eqn:Hq; [now apply table_step|].
+    destruct q; try discriminate Hq; unfold ReaderState.step.
+    - (* range *)
+      destruct (b <=? a); [exact Hok|]. loaded Hwf Hok E. cbn [st_tabs].
+      destruct (get_contig_desc ar (catalogue ar) s c); [|apply tabs_ok_cat].
+      destruct (seg_ranges (ar_k ar) l0 true 0) as [[rs clen]| |]; try apply tabs_ok_cat.
+      destruct (N.min b clen <=? a); [apply tabs_ok_cat|].
+      rewrite lift_fst. eapply tabs_ok_same; [apply tabs_ok_cat | apply range_loop_tabs].
+    - loaded Hwf Hok E. cbn [st_tabs].
+      destruct (get_contig_desc ar (catalogue ar) s c); [|apply tabs_ok_cat].
+      rewrite lift_fst. eapply tabs_ok_same; [apply tabs_ok_cat | apply reconstruct_tabs].
+    - rewrite lift_fst. eapply tabs_ok_same; [exact Hok | apply get_segment_tabs].
+    - rewrite lift_fst. eapply tabs_ok_same; [exact Hok | apply get_reference_segment_tabs].
+    - loaded Hwf Hok E. cbn [st_tabs].
+      destruct (get_sample_desc ar (catalogue ar) s); [|apply tabs_ok_cat].
+      rewrite lift_fst. eapply tabs_ok_same; [apply tabs_ok_cat | apply reconstruct_all_tabs].
+  Qed.
+
+  Lemma step_spec : forall ar st q, wf ar -> agree ar -> inv ar st ->
+    snd (step ar st q) = answer ar q /\ inv ar (fst (step ar st q)).
+  Proof.
+    intros ar st q Hwf Ha [Hok Hc].
+    assert (Ht := step_tabs_ok ar st q Hwf Hok).
+    destruct (is_table q) eqn:Hq.
+    { destruct (table_step ar st q Hwf Hok Hq) as (H1 & H2 & H3). split; [exact H1|]. split; [exact H2|].
+      now rewrite H3. }
+    unfold inv. revert Ht.
+    destruct q; try discriminate Hq; unfold ReaderState.step, ReaderState.answer.
+    - (* range *)
+      destruct (b <=? a); [intros; repeat split; assumption|]. loaded Hwf Hok E. cbn [st_tabs].
+      destruct (get_contig_desc ar (catalogue ar) s c); [|intros; repeat split; assumption].
+      destruct (seg_ranges (ar_k ar) l0 true 0) as [[rs clen]| |]; try (intros; repeat split; assumption).
+      destruct (N.min b clen <=? a); [intros; repeat split; assumption|].
+      rewrite lift_fst, lift_snd. intros Ht.
+      destruct (range_loop_spec ar Ha rs (mkSt (catalogue ar) c0 l (st_cache st)) a (N.min b clen) [] Hc)
+        as [Hs Hc'].
+      rewrite Hs. repeat split; assumption.
+    - loaded Hwf Hok E. cbn [st_tabs].
+      destruct (get_contig_desc ar (catalogue ar) s c); [|intros; repeat split; assumption].
+      rewrite lift_fst, lift_snd. intros Ht.
+      destruct (reconstruct_spec ar Ha l0 (mkSt (catalogue ar) c0 l (st_cache st)) true [] Hc) as [Hs Hc'].
+      rewrite Hs. repeat split; assumption.
+    - rewrite lift_fst, lift_snd. intros Ht.
+      destruct (get_segment_spec ar st d Ha Hc) as [Hs Hc']. rewrite Hs. repeat split; assumption.
+    - rewrite lift_fst, lift_snd. intros Ht.
+      destruct (get_reference_segment_spec ar st g Hc) as [Hs Hc']. rewrite Hs.
+      split; [|split; assumption]. destruct (ar_ref ar g); reflexivity.
+    - loaded Hwf Hok E. cbn [st_tabs].
+      destruct (get_sample_desc ar (catalogue ar) s); [|intros; repeat split; assumption].
+      rewrite lift_fst, lift_snd. intros Ht.
+      destruct (reconstruct_all_spec ar Ha l0 (mkSt (catalogue ar) c l (st_cache st)) [] Hc) as [Hs Hc'].
+      rewrite Hs. repeat split; assumption.
+  Qed.
+
+  Lemma inv_fresh : forall ar, inv ar (fresh ar).
+  Proof. intros ar; split; [left; reflexivity | intros g v []]. Qed.
+
+  Lemma run_inv : forall ar, wf ar -> agree ar -> forall h st, inv ar st -> inv ar (run ar st h).
+  Proof.
+    intros ar Hwf Ha. induction h as [|q h IH]; intros st Hi; cbn [ReaderState.run]; [exact Hi|].
+    apply IH. now apply step_spec.
+  Qed.
+  Lemma run_tabs_ok : forall ar, wf ar -> forall h st, tabs_ok ar st -> tabs_ok ar (run ar st h).
+  Proof.
+    intros ar Hwf. induction h as [|q h IH]; intros st Hi; cbn [ReaderState.run]; [exact Hi|].
+    apply IH. now apply step_tabs_ok.
+  Qed.
+
+  (* ================================================================== the C08 theorems *)
+  Theorem history_independent_proof : forall ar, wf ar -> agree ar ->
+    forall h q, ask_after ar h q = answer ar q.
+  Proof.
+    intros ar Hwf Ha h q. unfold ReaderState.ask_after.
+    apply step_spec; try assumption. apply run_inv; try assumption. apply inv_fresh.
+  Qed.
+
+  Theorem table_queries_independent_proof : forall ar, wf ar ->
+    forall h q, is_table q = true -> ask_after ar h q = answer ar q.
+  Proof.
+    intros ar Hwf h q Hq. unfold ReaderState.ask_after.
+    apply table_step; try assumption. apply run_tabs_ok; [assumption|]. left; reflexivity.
+  Qed.
+
+  Theorem names_queries_any_state_proof : forall ar st,
+    snd (step ar st QListSamples) = Ok (VNames (ar_names ar))
+    /\ (forall p, snd (step ar st (QPrefix p)) = Ok (VNames (filter (fun s => starts_with s p) (ar_names ar))))
+    /\ snd (step ar st QCompStats) = Ok (VStreams (ar_streams ar)).
+  Proof. intros; repeat split. Qed.
+
+  (* ---- a sufficient condition for [agree] that a writer can guarantee: a compressed reference part
+     (metadata <> 0) decodes to metadata-many bytes and has at least 3 of them *)
+  Definition sizes_ok (ar : archive) : Prop :=
+    forall g p body mk r, 16 <= g -> ar_ref ar g = Some p -> fst (get_part p) <> 0 ->
+      pop_last (snd (get_part p)) = Some (body, mk) -> dz body mk = Ok r ->
+      lenN r = fst (get_part p) /\ 3 <= lenN r.
+
+  Lemma get_part_empty : forall p, snd (get_part p) = [] -> fst (get_part p) = 0.
+  Proof. intros [m [|x d]]; cbn; intros H; [reflexivity | discriminate]. Qed.
+
+  Lemma agree_of_sizes_proof : forall ar, sizes_ok ar -> agree ar.
+  Proof.
+    intros ar Hs g p Hg Hr. specialize (Hs g p).
+    unfold ReaderState.ref_via_segment, ReaderState.ref_via_query.
+    pose proof (get_part_empty p) as He.
+    destruct (get_part p) as [m d]; cbn [fst snd] in *.
+    destruct d as [|x d].
+    - rewrite He by reflexivity. reflexivity.
+    - destruct (m =? 0) eqn:Em; [reflexivity|]. apply N.eqb_neq in Em.
+      destruct (pop_last (x :: d)) as [[body mk]|] eqn:Ep; [|reflexivity].
+      destruct (dz body mk) as [r| |] eqn:Ed; try reflexivity.
+      destruct (Hs body mk r Hg Hr Em eq_refl Ed) as [Hl H3]. cbn [obnd negb andb].
+      rewrite <- Hl.
+      replace (lenN r * 4 <? lenN r + 8) with false; [now rewrite andb_false_r|].
+      symmetry. apply N.ltb_ge. lia.
+  Qed.
+
+  (* ---- never panics *)
+  Definition quiet (ar : archive) : Prop :=
+    (forall g i r, ar_lz ar g i r <> Panic) /\ (forall g i, ar_raw ar g i <> Panic)
+    /\ (forall b m, dz b m <> Panic).
+  Definition tail_ok (k : N) (ds : list desc) : Prop :=
+    match ds with [] => True | _ :: r => Forall (fun d => k <= d_len d) r end.
+  (* every segment after the first one of a contig is at least k long (its descriptor says so) *)
+  Definition lens_ok (ar : archive) : Prop :=
+    Forall (fun cs => Forall (fun c : contig => tail_ok (ar_k ar) (snd c)) cs) (catalogue ar).
+
+  Lemma ref_via_segment_quiet : forall p, (forall b m, dz b m <> Panic) -> ref_via_segment p <> Panic.
+  Proof.
+    intros [m d] Hq. unfold ReaderState.ref_via_segment; cbn [fst snd].
+    destruct (m =? 0); cbn [obnd]; [discriminate|].
+    destruct (pop_last d) as [[b mk]|]; cbn [obnd]; [|discriminate].
+    specialize (Hq b mk). destruct (dz b mk); cbn [obnd]; try discriminate. congruence.
+  Qed.
+  Lemma ref_via_query_quiet : forall p, (forall b m, dz b m <> Panic) -> ref_via_query p <> Panic.
+  Proof.
+    intros [m d] Hq. unfold ReaderState.ref_via_query; cbn [fst snd].
+    destruct d; [discriminate|]. destruct (m =? 0); [discriminate|].
+    destruct (pop_last (n :: d)) as [[b mk]|]; [apply Hq | discriminate].
+  Qed.
+  Lemma seg_spec_quiet : forall ar d, quiet ar -> seg_spec ar d <> Panic.
+  Proof.
+    intros ar d (Hl & Hr & Hz). unfold ReaderState.seg_spec, ReaderState.ref_spec.
+    destruct (16 <=? d_group d); [|apply Hr].
+    destruct (ar_ref ar (d_group d)); cbn [obnd]; [|discriminate].
+    pose proof (ref_via_segment_quiet (get_part p) Hz).
+    destruct (ReaderState.ref_via_segment dz (get_part p)); cbn [obnd]; try congruence.
+    destruct (d_in d =? 0); [discriminate | apply Hl].
+  Qed.
+  Lemma recon_spec_quiet : forall ar, quiet ar -> forall ds first acc, recon_spec ar ds first acc <> Panic.
+  Proof.
+    intros ar Hq. induction ds as [|d ds IH]; intros; cbn [ReaderState.recon_spec]; [discriminate|].
+    pose proof (seg_spec_quiet ar d Hq). destruct (seg_spec ar d); cbn [obnd]; try congruence.
+    destruct first; [apply IH|]. destruct (lenN (orient d a) <? ar_k ar); [discriminate | apply IH].
+  Qed.
+  Lemma recon_all_spec_quiet : forall ar, quiet ar -> forall cs acc, recon_all_spec ar cs acc <> Panic.
+  Proof.
+    intros ar Hq. induction cs as [|c cs IH]; intros; cbn [ReaderState.recon_all_spec]; [discriminate|].
+    pose proof (recon_spec_quiet ar Hq (snd c) true []).
+    destruct (recon_spec ar (snd c) true []); cbn [obnd]; try congruence; try apply IH.
+  Qed.
+  Lemma range_spec_quiet : forall ar, quiet ar -> forall rs a e acc, range_spec ar rs a e acc <> Panic.
+  Proof.
+    intros ar Hq. induction rs as [|[[[s0 e0] d] first] rs IH]; intros; cbn [ReaderState.range_spec];
+      [discriminate|].
+    destruct (e0 <=? a); [apply IH|]. destruct (e <=? s0); [discriminate|].
+    pose proof (seg_spec_quiet ar d Hq). destruct (seg_spec ar d); cbn [obnd]; try congruence; try apply IH.
+  Qed.
+  Lemma total_len_quiet : forall k ds acc, Forall (fun d => k <= d_len d) ds -> total_len k ds false acc <> Panic.
+  Proof.
+    intros k. induction ds as [|d ds IH]; intros acc H; cbn [total_len]; [discriminate|].
+    inversion H; subst. unfold sub_u64. replace (k <=? d_len d) with true by (symmetry; now apply N.leb_le).
+    now apply IH.
+  Qed.
+  Lemma total_len_quiet1 : forall k ds, tail_ok k ds -> total_len k ds true 0 <> Panic.
+  Proof. intros k [|d ds] H; cbn [total_len]; [discriminate | now apply total_len_quiet]. Qed.
+  Lemma seg_ranges_quiet : forall k ds pos, Forall (fun d => k <= d_len d) ds -> seg_ranges k ds false pos <> Panic.
+  Proof.
+    intros k. induction ds as [|d ds IH]; intros pos H; cbn [seg_ranges]; [discriminate|].
+    inversion H; subst. unfold sub_u64. replace (k <=? d_len d) with true by (symmetry; now apply N.leb_le).
+    specialize (IH (pos + (d_len d - k)) H3). destruct (seg_ranges k ds false (pos + (d_len d - k))); cbn [obnd];
+      congruence.
+  Qed.
+  Lemma seg_ranges_quiet1 : forall k ds, tail_ok k ds -> seg_ranges k ds true 0 <> Panic.
+  Proof.
+    intros k [|d ds] H; cbn [seg_ranges]; [discriminate|].
+    pose proof (seg_ranges_quiet k ds (0 + d_len d) H).
+    destruct (seg_ranges k ds false (0 + d_len d)); cbn [obnd]; congruence.
+  Qed.
+  Lemma collect_segments_quiet : forall ar tabs ns, collect_segments ar tabs ns <> Panic.
+  Proof.
+    induction ns as [|s ns IH]; cbn [collect_segments]; [discriminate|].
+    destruct (get_contig_list ar tabs s); [|discriminate].
+    destruct (collect_segments ar tabs ns); cbn [obnd]; congruence.
+  Qed.
+  Lemma contig_desc_tail_ok : forall ar s c ds, lens_ok ar ->
+    get_contig_desc ar (catalogue ar) s c = Some ds -> tail_ok (ar_k ar) ds.
+  Proof.
+    intros ar s c ds Hl H. unfold get_contig_desc in H. destruct (sid ar s) as [id|]; [|discriminate].
+    destruct (find (fun x => name_eqb (fst x) c) (tab (catalogue ar) id)) as [x|] eqn:Ef; [|discriminate].
+    inversion H; subst. apply find_some in Ef as [Hin _]. unfold tab in Hin.
+    destruct (nth_in_or_default id (catalogue ar) []) as [Hn|Hn].
+    - unfold lens_ok in Hl. rewrite Forall_forall in Hl. specialize (Hl _ Hn).
+      rewrite Forall_forall in Hl. now apply Hl.
+    - rewrite Hn in Hin. destruct Hin.
+  Qed.
+
+  Lemma answer_quiet : forall ar q, quiet ar -> lens_ok ar -> answer ar q <> Panic.
+  Proof.
+    intros ar q Hq Hl. pose proof Hq as (_ & _ & Hz).
+    destruct q; unfold ReaderState.answer; try discriminate.
+    - destruct (get_contig_list ar (catalogue ar) s); discriminate.
+    - destruct (get_contig_desc ar (catalogue ar) s c) eqn:E; [|discriminate].
+      pose proof (total_len_quiet1 _ _ (contig_desc_tail_ok ar s c l Hl E)).
+      destruct (total_len (ar_k ar) l true 0); cbn [omap]; congruence.
+    - destruct (b <=? a); [discriminate|].
+      destruct (get_contig_desc ar (catalogue ar) s c) eqn:E; [|discriminate].
+      pose proof (seg_ranges_quiet1 _ _ (contig_desc_tail_ok ar s c l Hl E)).
+      destruct (seg_ranges (ar_k ar) l true 0) as [[rs clen]| |]; try congruence.
+      destruct (N.min b clen <=? a); [discriminate|].
+      pose proof (range_spec_quiet ar Hq rs a (N.min b clen) []).
+      destruct (range_spec ar rs a (N.min b clen) []); cbn [omap]; congruence.
+    - destruct (get_contig_desc ar (catalogue ar) s c); [|discriminate].
+      pose proof (recon_spec_quiet ar Hq l true []).
+      destruct (recon_spec ar l true []); cbn [omap]; congruence.
+    - destruct (get_contig_desc ar (catalogue ar) s c); discriminate.
+    - pose proof (seg_spec_quiet ar d Hq). destruct (seg_spec ar d); cbn [omap]; congruence.
+    - destruct (ar_ref ar g); [|discriminate].
+      pose proof (ref_via_query_quiet (get_part p) Hz).
+      destruct (ReaderState.ref_via_query dz (get_part p)); cbn [omap]; congruence.
+    - destruct (get_sample_desc ar (catalogue ar) s); [|discriminate].
+      pose proof (recon_all_spec_quiet ar Hq l []).
+      destruct (recon_all_spec ar l []); cbn [omap]; congruence.
+    - pose proof (collect_segments_quiet ar (catalogue ar) (ar_names ar)).
+      destruct (collect_segments ar (catalogue ar) (ar_names ar)); cbn [omap]; congruence.
+    - pose proof (collect_segments_quiet ar (catalogue ar) (ar_names ar)).
+      destruct (collect_segments ar (catalogue ar) (ar_names ar)); cbn [omap]; congruence.
+  Qed.
+
+  Theorem never_panics_proof : forall ar, wf ar -> agree ar -> quiet ar -> lens_ok ar ->
+    forall h q, ask_after ar h q <> Panic.
+  Proof.
+    intros ar Hwf Ha Hq Hl h q. rewrite history_independent_proof by assumption. now apply answer_quiet.
+  Qed.
+
+  (* ---- unknown names give Err *)
+  Lemma name_eqb_eq : forall a b, name_eqb a b = true <-> a = b.
+  Proof.
+    unfold name_eqb. induction a as [|x a IH]; intros [|y b]; cbn; split; intros H; try reflexivity;
+      try discriminate.
+    - apply andb_prop in H as [H1 H2]. apply N.eqb_eq in H1. apply IH in H2. now subst.
+    - inversion H; subst. rewrite N.eqb_refl. cbn. now apply IH.
+  Qed.
+  Lemma sid_from_none : forall ns i s, ~ In s ns -> sid_from ns i s = None.
+  Proof.
+    induction ns as [|n ns IH]; intros i s H; cbn [sid_from]; [reflexivity|].
+    rewrite IH by (intros Hin; apply H; now right).
+    destruct (name_eqb n s) eqn:E; [|reflexivity].
+    apply name_eqb_eq in E. subst. exfalso. apply H. now left.
+  Qed.
+
+  Definition asks_sample (q : query) : option name :=
+    match q with
+    | QListContigs s | QContigLength s _ | QContig s _ | QSegDesc s _ | QSample s => Some s
+    | QContigRange s _ a b => if b <=? a then None else Some s
+    | _ => None
+    end.
+  Definition asks_contig (q : query) : option (name * name) :=
+    match q with
+    | QContigLength s c | QContig s c | QSegDesc s c => Some (s, c)
+    | QContigRange s c a b => if b <=? a then None else Some (s, c)
+    | _ => None
+    end.
+
+  Theorem unknown_sample_err_proof : forall ar q s, asks_sample q = Some s -> ~ In s (ar_names ar) ->
+    answer ar q = Err.
+  Proof.
+    intros ar q s Hq Hn. assert (E : sid ar s = None) by (now apply sid_from_none).
+    destruct q; cbn in Hq; try discriminate; try (destruct (b <=? a) eqn:Eb; try discriminate);
+      inversion Hq; subst;
+      unfold ReaderState.answer, get_contig_list, get_contig_desc, get_sample_desc; rewrite ?Eb, E; reflexivity.
+  Qed.
+
+  Theorem unknown_contig_err_proof : forall ar q s c, asks_contig q = Some (s, c) ->
+    (forall id x, sid ar s = Some id -> In x (tab (catalogue ar) id) -> fst x <> c) ->
+    answer ar q = Err.
+  Proof.
+    intros ar q s c Hq Hn.
+    assert (E : get_contig_desc ar (catalogue ar) s c = None).
+    { unfold get_contig_desc. destruct (sid ar s) as [id|] eqn:Es; [|reflexivity].
+      destruct (find (fun x => name_eqb (fst x) c) (tab (catalogue ar) id)) as [x|] eqn:Ef; [|reflexivity].
+      apply find_some in Ef as [Hin He]. apply name_eqb_eq in He. exfalso. eapply Hn; eauto. }
+    destruct q; cbn in Hq; try discriminate; try (destruct (b <=? a) eqn:Eb; try discriminate);
+      inversion Hq; subst; unfold ReaderState.answer; rewrite ?Eb, E; reflexivity.
+  Qed.
+
+  (* ---- several handles *)
+  Lemma Forall_set_nth : forall {A} (P : A -> Prop) l i x, Forall P l -> P x -> Forall P (set_nth l i x).
+  Proof.
+    induction l as [|a l IH]; intros i x Hl Hx; cbn; [constructor|].
+    inversion Hl; subst. destruct i; constructor; auto.
+  Qed.
+
+  Lemma sys_step_inv : forall ar, wf ar -> agree ar -> forall hs o,
+    Forall (inv ar) hs -> Forall (inv ar) (fst (sys_step ar hs o)).
+  Proof.
+    intros ar Hwf Ha hs o H. destruct o as [h q|h]; cbn [ReaderState.sys_step].
+    - destruct (nth_error hs h) as [st|] eqn:E; [|exact H]. cbn [fst].
+      apply Forall_set_nth; [exact H|]. apply step_spec; try assumption.
+      rewrite Forall_forall in H. apply H. eapply nth_error_In; eauto.
+    - destruct (nth_error hs h); [|exact H]. cbn [fst]. apply Forall_app. split; [exact H|].
+      constructor; [apply inv_fresh | constructor].
+  Qed.
+  Lemma sys_run_inv : forall ar, wf ar -> agree ar -> forall os hs,
+    Forall (inv ar) hs -> Forall (inv ar) (sys_run ar hs os).
+  Proof.
+    intros ar Hwf Ha. induction os as [|o os IH]; intros hs H; cbn [ReaderState.sys_run]; [exact H|].
+    apply IH. now apply sys_step_inv.
+  Qed.
+
+  (* after any interleaving of queries on any handles and of clone_for_thread calls, starting from one freshly
+     opened handle, the next answer of ANY handle is the stateless answer *)
+  Theorem clones_independent_proof : forall ar, wf ar -> agree ar ->
+    forall os h st q, nth_error (sys_run ar [fresh ar] os) h = Some st -> snd (step ar st q) = answer ar q.
+  Proof.
+    intros ar Hwf Ha os h st q E.
+    assert (H : Forall (inv ar) (sys_run ar [fresh ar] os)).
+    { apply sys_run_inv; try assumption. constructor; [apply inv_fresh | constructor]. }
+    rewrite Forall_forall in H. apply step_spec; try assumption. apply H. eapply nth_error_In; eauto.
+  Qed.
+  (* a clone's state does not depend on its parent's state *)
+  Theorem clone_is_fresh_proof : forall ar hs h st, nth_error hs h = Some st ->
+    fst (sys_step ar hs (OpClone h)) = hs ++ [fresh ar].
+  Proof. intros ar hs h st E. cbn. now rewrite E. Qed.
 End Proofs.
+
+(* ------------------------------------------------------------------ concrete archives (non-vacuity, refutations) *)
+Definition nm (x : N) : name := [x].
+Definition ex_dz (body : list N) (mk : N) : outcome (list N) :=
+  if list_eqb N.eqb body [9; 9] then Ok [0; 1; 2; 3; 0]
+  else if list_eqb N.eqb body [27] then Ok [27] else Err.
+Definition ex_lz (g i : N) (rf : list N) : outcome (list N) :=
+  if (g =? 16) && (i =? 1) then Ok (rf ++ [1]) else Err.
+Definition ex_raw (g i : N) : outcome (list N) := if (g =? 0) && (i =? 1) then Ok [2; 2] else Err.
+Definition ex_b0 : batch :=
+  [ [(nm 100, [mkDesc 16 0 false 5; mkDesc 17 0 true 4]); (nm 101, [mkDesc 0 1 false 2])];
+    [(nm 100, [mkDesc 16 1 false 6; mkDesc 17 0 true 4])] ].
+Definition ex_b1 : batch := [ [(nm 102, [mkDesc 17 0 false 4])] ].
+(* three samples in two batches (sizes 2 and 1), k = 2; group 16: compressed reference (metadata 5), group 17:
+   reference stored raw (metadata 0), group 0: raw group *)
+Definition ex_ar : archive :=
+  mkAr 2 [nm 1; nm 2; nm 3] [Some ex_b0; Some ex_b1]
+       (fun g => if g =? 16 then Some (5, [9; 9; 1]) else if g =? 17 then Some (0, [3; 2; 1; 0]) else None)
+       ex_lz ex_raw [].
+(* a foreign archive whose reference really is 2-bit packed: the two decoders differ *)
+Definition ex_packed : archive :=
+  mkAr 2 [nm 1] [Some [[(nm 100, [mkDesc 16 0 false 4])]]]
+       (fun g => if g =? 16 then Some (4, [27; 0]) else None) ex_lz ex_raw [].
+(* the second catalogue batch does not decode *)
+Definition ex_corrupt : archive :=
+  mkAr 2 [nm 1; nm 2] [Some [[(nm 100, [mkDesc 0 1 false 2])]]; None] (fun _ => None) ex_lz ex_raw [].
+(* the batches describe more samples than the sample table has *)
+Definition ex_toomany : archive :=
+  mkAr 2 [nm 1] [Some [[(nm 100, [mkDesc 0 1 false 2])]; [(nm 101, [mkDesc 0 1 false 2])]]] (fun _ => None)
+       ex_lz ex_raw [].
+(* a later segment shorter than k *)
+Definition ex_short : archive :=
+  mkAr 3 [nm 1] [Some [[(nm 100, [mkDesc 0 1 false 2; mkDesc 0 1 false 2])]]] (fun _ => None) ex_lz ex_raw [].
+
+Lemma ex_ar_agree : agree ex_dz ex_ar.
+Proof.
+  intros g p Hg Hr. cbn in Hr.
+  destruct (g =? 16); [inversion Hr; subst; reflexivity|].
+  destruct (g =? 17); [inversion Hr; subst; reflexivity | discriminate].
+Qed.
+Lemma ex_ar_quiet : quiet ex_dz ex_ar.
+Proof.
+  repeat split; intros; cbn; unfold ex_lz, ex_raw, ex_dz.
+  - destruct ((g =? 16) && (i =? 1)); discriminate.
+  - destruct ((g =? 0) && (i =? 1)); discriminate.
+  - destruct (list_eqb N.eqb b [9; 9]); [discriminate|]. destruct (list_eqb N.eqb b [27]); discriminate.
+Qed.
+Lemma ex_ar_lens_ok : lens_ok ex_ar.
+Proof.
+  unfold lens_ok. cbn. repeat constructor; cbn; apply N.leb_le; reflexivity.
+Qed.
+
+(* ------------------------------------------------------------------ the statements pinned in props/C08.v:
+   hypotheses spelled out over the model's own definitions only *)
+Lemma wf_of : forall ar, Forall (fun ob : option batch => ob <> None) (ar_batches ar) ->
+  (length (all_entries ar) <= length (ar_names ar))%nat -> wf ar.
+Proof.
+  intros ar Hs Hl. unfold wf, wfb. apply andb_true_intro. split; [|now apply Nat.leb_le].
+  apply forallb_forall. intros ob Hin. rewrite Forall_forall in Hs. specialize (Hs ob Hin).
+  destruct ob; [reflexivity | congruence].
+Qed.
+
+Lemma lens_ok_of : forall ar,
+  (forall cs c d r, In cs (catalogue ar) -> In c cs -> snd c = d :: r -> Forall (fun x => ar_k ar <= d_len x) r) ->
+  lens_ok ar.
+Proof.
+  intros ar H. unfold lens_ok. apply Forall_forall. intros cs Hcs. apply Forall_forall. intros c Hc.
+  unfold tail_ok. destruct (snd c) as [|d r] eqn:E; [exact I | eapply H; eauto].
+Qed.
+
+Definition table_query (q : query) : Prop :=
+  match q with
+  | QListSamples | QPrefix _ | QCompStats | QListContigs _ | QContigLength _ _ | QSegDesc _ _
+  | QGroupStats | QAllSegments => True
+  | _ => False
+  end.
+
+Section Pins.
+  Variable dz : list N -> N -> outcome (list N).
+
+  Lemma history_independent_pin : forall ar,
+    Forall (fun ob : option batch => ob <> None) (ar_batches ar) ->
+    (length (all_entries ar) <= length (ar_names ar))%nat ->
+    (forall g p, 16 <= g -> ar_ref ar g = Some p ->
+                 ref_via_segment dz (get_part p) = ref_via_query dz (get_part p)) ->
+    forall h q, ask_after dz ar h q = answer dz ar q.
+  Proof. intros ar H1 H2 H3. apply history_independent_proof; [now apply wf_of | exact H3]. Qed.
+
+  Lemma table_queries_independent_pin : forall ar,
+    Forall (fun ob : option batch => ob <> None) (ar_batches ar) ->
+    (length (all_entries ar) <= length (ar_names ar))%nat ->
+    forall h q, table_query q -> ask_after dz ar h q = answer dz ar q.
+  Proof.
+    intros ar H1 H2 h q Hq. apply table_queries_independent_proof; [now apply wf_of|].
+    destruct q; cbn in *; tauto.
+  Qed.
+
+  Lemma decoders_agree_pin : forall ar,
+    (forall g p body mk r, 16 <= g -> ar_ref ar g = Some p -> fst (get_part p) <> 0 ->
+       pop_last (snd (get_part p)) = Some (body, mk) -> dz body mk = Ok r ->
+       lenN r = fst (get_part p) /\ 3 <= lenN r) ->
+    forall g p, 16 <= g -> ar_ref ar g = Some p ->
+                ref_via_segment dz (get_part p) = ref_via_query dz (get_part p).
+  Proof. intros ar H. exact (agree_of_sizes_proof dz ar H). Qed.
+
+  Lemma never_panics_pin : forall ar,
+    Forall (fun ob : option batch => ob <> None) (ar_batches ar) ->
+    (length (all_entries ar) <= length (ar_names ar))%nat ->
+    (forall g p, 16 <= g -> ar_ref ar g = Some p ->
+                 ref_via_segment dz (get_part p) = ref_via_query dz (get_part p)) ->
+    (forall g i r, ar_lz ar g i r <> Panic) -> (forall g i, ar_raw ar g i <> Panic) ->
+    (forall b m, dz b m <> Panic) ->
+    (forall cs c d r, In cs (catalogue ar) -> In c cs -> snd c = d :: r ->
+                      Forall (fun x => ar_k ar <= d_len x) r) ->
+    forall h q, ask_after dz ar h q <> Panic.
+  Proof.
+    intros ar H1 H2 H3 H4 H5 H6 H7. apply never_panics_proof;
+      [now apply wf_of | exact H3 | repeat split; assumption | now apply lens_ok_of].
+  Qed.
+
+  Lemma clones_independent_pin : forall ar,
+    Forall (fun ob : option batch => ob <> None) (ar_batches ar) ->
+    (length (all_entries ar) <= length (ar_names ar))%nat ->
+    (forall g p, 16 <= g -> ar_ref ar g = Some p ->
+                 ref_via_segment dz (get_part p) = ref_via_query dz (get_part p)) ->
+    forall os h st q, nth_error (sys_run dz ar [fresh ar] os) h = Some st ->
+                      snd (step dz ar st q) = answer dz ar q.
+  Proof. intros ar H1 H2 H3. apply clones_independent_proof; [now apply wf_of | exact H3]. Qed.
+End Pins.
+
+(* refutations (each hypothesis is needed) *)
+Lemma decoders_disagree_refuted_proof : exists dz ar h q,
+  Forall (fun ob : option batch => ob <> None) (ar_batches ar) /\
+  (length (all_entries ar) <= length (ar_names ar))%nat /\
+  ask_after dz ar h q <> answer dz ar q.
+Proof.
+  exists ex_dz, ex_packed, [QRefSeg 16], (QSample (nm 1)). split; [|split].
+  - repeat constructor; discriminate.
+  - cbn. lia.
+  - vm_compute. discriminate.
+Qed.
+Lemma corrupt_batch_refuted_proof : exists dz ar q,
+  ask_after dz ar [] q = Err /\ exists v, ask_after dz ar [q] q = Ok v.
+Proof.
+  exists ex_dz, ex_corrupt, (QListContigs (nm 1)). split; [reflexivity|]. eexists. vm_compute. reflexivity.
+Qed.
+Lemma too_many_entries_refuted_proof : exists dz ar q,
+  Forall (fun ob : option batch => ob <> None) (ar_batches ar) /\ ask_after dz ar [] q = Panic
+  /\ exists v, ask_after dz ar [q] q = Ok v.
+Proof.
+  exists ex_dz, ex_toomany, (QListContigs (nm 1)). split; [repeat constructor; discriminate|].
+  split; [reflexivity|]. eexists. vm_compute. reflexivity.
+Qed.
+Lemma short_segment_refuted_proof : exists dz ar q,
+  Forall (fun ob : option batch => ob <> None) (ar_batches ar) /\
+  (length (all_entries ar) <= length (ar_names ar))%nat /\ answer dz ar q = Panic.
+Proof.
+  exists ex_dz, ex_short, (QContigLength (nm 1) (nm 100)). split; [repeat constructor; discriminate|].
+  split; [cbn; lia | reflexivity].
+Qed.
